@@ -1,4 +1,7 @@
-# check registry (exec'd by ../run): reg(id, source, variant, cflags=[...], ldflags=[...], defs=[...])
+# check registry (exec'd by ../run): reg(id, source, variant, cflags=[...], ldflags=[...], defs=[...], srcs=[...])
+import glob as _glob
 reg("C05", "regions.c", "opt", cflags=["-DPROP=5", "-O2"])
 reg("C06", "regions.c", "opt", cflags=["-DPROP=6", "-O2"])
 reg("C07", "regions.c", "opt", cflags=["-DPROP=7", "-O2"])
+for _f in sorted(_glob.glob(os.path.join(VERIF, "checks", "registry.d", "*.py"))):
+    exec(open(_f).read())
